@@ -31,6 +31,8 @@ def expand (s : String) : List String :=
 
 def handle (f : List String) : String :=
   match f with
+  -- many rounds of "connect while cancelling": the model has nothing to say beyond "it ends"
+  | ["race", _, _] => "race-done"
   | ["sock", kind, evS] =>
     -- a pipe or a datagram socket has one reader for its whole life and ends by itself: it behaves
     -- as a one-shot listener with a single connection whose closer also reacts to cancellation
